@@ -171,6 +171,8 @@ struct GlobalInfo {
     name: String,
     ty: ElementaryTypeName,
     constant: bool,
+    /// declared in the RESOURCE's VAR_GLOBAL block instead of the CONFIGURATION's
+    at_resource: bool,
 }
 
 pub struct Unit {
@@ -1053,7 +1055,8 @@ impl<'a, 't, 'g> VGen<'a, 't, 'g> {
         for _ in 0..n {
             let name = self.fresh();
             let ty = self.num_type();
-            self.globals.push(GlobalInfo { name, ty, constant });
+            let at_resource = self.t.ratio(1, 3);
+            self.globals.push(GlobalInfo { name, ty, constant, at_resource });
         }
     }
     fn gen_config(&mut self, out: &mut Vec<LibraryElementKind>) {
@@ -1061,9 +1064,11 @@ impl<'a, 't, 'g> VGen<'a, 't, 'g> {
         self.cur_class = "config".into();
         let name = self.fresh();
         let mut global_var = vec![];
+        let mut resource_globals = vec![];
         for g in self.globals.clone() {
             let c = Some(self.elem_const(&g.ty));
-            global_var.push(vd(&g.name, VariableType::Global, if g.constant { DeclarationQualifier::Constant } else { DeclarationQualifier::Unspecified }, simple(g.ty.clone().into(), c)));
+            let dst = if g.at_resource { &mut resource_globals } else { &mut global_var };
+            dst.push(vd(&g.name, VariableType::Global, if g.constant { DeclarationQualifier::Constant } else { DeclarationQualifier::Unspecified }, simple(g.ty.clone().into(), c)));
         }
         let nt = self.t.count(0, 2);
         let tasks: Vec<TaskConfiguration> = (0..nt)
@@ -1095,7 +1100,7 @@ impl<'a, 't, 'g> VGen<'a, 't, 'g> {
         out.push(LibraryElementKind::ConfigurationDeclaration(ConfigurationDeclaration {
             name: id(&name),
             global_var,
-            resource_decl: vec![ResourceDeclaration { name: id(&rname), resource: id(&ron), global_vars: vec![], tasks, programs }],
+            resource_decl: vec![ResourceDeclaration { name: id(&rname), resource: id(&ron), global_vars: resource_globals, tasks, programs }],
             fb_inits: vec![],
             located_var_inits: vec![],
         }));
